@@ -104,7 +104,7 @@ func Minimal() []Item {
  "file_declaration":{"segment_delimiter":"\n","element_delimiter":"*","component_delimiter":":","release_character":"?","segment_declarations":[
    {"name":"ISA","child_segments":[
      {"name":"grp","type":"segment_group","is_target":true,"min":0,"max":-1,"child_segments":[
-       {"name":"ST","elements":[{"name":"id","index":1}]},
+       {"name":"ST","min":1,"max":1,"elements":[{"name":"id","index":1}]},
        {"name":"N1","min":0,"max":2,"elements":[{"name":"c1","index":1,"component_index":1},{"name":"c2","index":1,"component_index":2,"empty_if_missing":true}]},
        {"name":"SE"}]}]},
    {"name":"IEA","min":0}]},
